@@ -19,10 +19,13 @@ import WsVerif.Lemmas.Fld.GTop
 import WsVerif.Lemmas.Fld.G2
 import WsVerif.Lemmas.Fld.GCtx
 import WsVerif.Lemmas.Fld.GValid
+import WsVerif.Lemmas.Fld.GSound
+import WsVerif.Lemmas.Fld.GConst
 /-! Helper lemmas for `Props/C20fld.lean`: memory safety and termination of the flooding loops of `pt_fld`
 (`Model/Specpart.lean`).  `Fld/Base` = bounds-checked accessors, verification-condition tactics, the circular FIFO,
 pigeonhole counting; `Fld/S1a`, `Fld/S1b`, `Fld/S1c`, `Fld/S2`, `Fld/Top` = invariants and Hoare triples (`Std.Do`) of the
 individual loops and their composition; `Fld/Table`, `Fld/Sort`, `Fld/Part` = neighbour table, counting sort, `partition`;
 `Fld/Eff`, `Fld/T1`, `Fld/T2`, `Fld/T3` = label effect of the ghost trace (`effRun`) and the relation `TR`;
 `Fld/Sim`, `Fld/G1a`, `Fld/G1b`, `Fld/G1c`, `Fld/GTop`, `Fld/G2`, `Fld/GCtx`, `Fld/GValid` = simulation relation between the
-concrete arrays and the abstract flooding machine: the ghost trace is valid (G3). -/
+concrete arrays and the abstract flooding machine: the ghost trace is valid (G3); `Fld/GSound`, `Fld/GConst` = helpers of
+`Props/C04sound.lean` (well-formedness of `graphOf`, label decoding; the constant-spectrum branch). -/
